@@ -40,7 +40,7 @@ class ExportConfigC(ExportConfig):
     
     def _parse_scalar(self, param, value):
         if isinstance(param, StringType):
-            value = f"\"{value}\""
+            value = "\"" + str(value).replace("\\", "\\\\").replace("\"", "\\\"") + "\""   # escape \ and "
         elif isinstance(param, BooleanType):
             value = "true" if value else "false"
         elif isinstance(param, IntegerType):
@@ -74,7 +74,7 @@ class ExportConfigC(ExportConfig):
         if param.value is None:
             value = ''
         elif isinstance(param, StringType):
-            value = "\""+str(param.value)+"\""
+            value = "\"" + str(param.value).replace("\\", "\\\\").replace("\"", "\\\"") + "\""
         elif isinstance(param, BooleanType):
             value = 1 if param.value else 0
         else:
